@@ -633,7 +633,8 @@ def prov6(ctx, pid):
             why = "loop does not run over Nibbles(prefix) for every given prefix"
         elif len(rem) != 1 or not (isinstance(rem[0].args[0], ast.Name) and isinstance(lp[0].target, ast.Name) and rem[0].args[0].id == lp[0].target.id):
             why = "loop body does not remove exactly the current prefix"
-        elif not tests:
+        elif not tests and not any(isinstance(t_, ast.Try) and util.contains(t_, rem[0]) and any(h_.type is not None and "KeyError" in ast.unparse(h_.type)
+                                   and any(isinstance(x_, ast.Raise) for x_ in ast.walk(h_)) for h_ in t_.handlers) for t_ in ast.walk(lp[0])):
             why = "membership of the prefix is not checked before removal"
         else:
             good = True
@@ -673,9 +674,14 @@ def _check_explore_refusals(ctx, f, old):
         segdef = [b for b in ctx.E.bindings(f).get(SEG, []) if isinstance(b, ast.AST)]
         if len(segdef) == 1:
             src = src.replace(ast.unparse(segdef[0]).replace(" ", ""), SEG)
+        notin_parent = [c_ for c_ in conds if isinstance(c_, ast.Compare) and len(c_.ops) == 1 and isinstance(c_.ops[0], ast.NotIn)
+                        and "_unexplored_prefixes" in ast.unparse(util.expand_locals(ctx, f, c_.comparators[0]))]
         if h is not None and "KeyError" in ast.unparse(h.type or ast.Name(id="")):
             kinds["unknown-parent"] = r
-        elif "len(set(%s))!=len(%s)" % (SEG, SEG) in src or "len(%s)!=len(set(%s))" % (SEG, SEG) in src:
+        elif notin_parent and kinds["unknown-parent"] is None:
+            kinds["unknown-parent"] = r  # `if old_prefix not in <the set>: raise ValidationError` instead of catching remove()'s KeyError
+        elif any(pat % ((SEG, SEG) if pat.startswith("len(%s(") is False else (SEG, SEG)) in src for pat in
+                 ("len(set(%s))!=len(%s)", "len(%s)!=len(set(%s))", "len(frozenset(%s))!=len(%s)", "len(%s)!=len(frozenset(%s))")):
             kinds["duplicates"] = r
         elif any(isinstance(c, ast.Compare) and isinstance(c.ops[0], ast.In) for c in conds):
             kinds["nested"] = (r, conds)
@@ -818,7 +824,7 @@ def sib10(ctx, pid):
     if ok:
         ctx.ok(c, ser.loc(), "returns (%r + repr([encode_nibbles(n) ...])).encode() with no post-processing" % lit)
     else:
-        ctx.bad(c, ser.loc(), why)
+        ctx.bad(c, ser.loc(), why, witness={"firm": "post-processed" in why})
     # deserialize
     c = "deserialize-shape:HexaryTrieFog.deserialize"
     problems = []
@@ -848,8 +854,13 @@ def sib10(ctx, pid):
         tv = g.generators[0].target.id if isinstance(g.generators[0].target, ast.Name) else "?"
         if e == "Nibbles(decode_nibbles(%s))" % tv and not g.generators[0].ifs:
             okg = True
+    mapped = False
     if not okg:
-        problems.append("elements are not rebuilt as Nibbles(decode_nibbles(prefix)) for every entry")
+        # map(Nibbles, map(decode_nibbles, entries)): the same rebuild, element by element
+        flat = src.replace("trie.utils.nibbles.", "").replace("nibbles.", "")
+        mapped = "map(Nibbles,map(decode_nibbles," in flat
+        if not mapped:
+            problems.append("elements are not rebuilt as Nibbles(decode_nibbles(prefix)) for every entry")
     if problems:
         ctx.bad(c, de.loc(), problems[0], witness={"problems": problems})
     else:
@@ -1138,7 +1149,9 @@ def fogpol(ctx, pid):
                 last = st.log[-1][0] is t
                 rows.add((r[0], "refuse" if (local_refusal(p) and last) else "go on"))
     c = "duplicates-polarity:HexaryTrieFog.explore"
-    if rows == {("!=", "refuse"), ("==", "go on")}:
+    if not rows:
+        ctx.unsure(c, f.loc(), "no path of explore shows the duplicate test in a form the table can read")
+    elif rows == {("!=", "refuse"), ("==", "go on")}:
         ctx.ok(c, f.loc(), "len(set(segments)) != len(segments) -> ValidationError; equal -> goes on")
     else:
         ctx.bad(c, f.loc(), "the duplicate test behaves as %s; expected {differs: ValidationError, equal: go on}" % sorted(rows))
@@ -1153,11 +1166,17 @@ def fogpol(ctx, pid):
                 member = ev.a if isinstance(ev.node.ops[0], ast.In) else not ev.a
             if ev.k == "call" and ev.a == "ok" and isinstance(ev.node, ast.Call) and isinstance(ev.node.func, ast.Attribute) and ev.node.func.attr in ("remove", "discard"):
                 removed = True
+                if member is None and ev.node.func.attr == "remove":
+                    member = True  # remove() returned: the element was there
+            if ev.k == "call" and ev.a == "KeyError" and isinstance(ev.node, ast.Call) and isinstance(ev.node.func, ast.Attribute) and ev.node.func.attr == "remove":
+                member = False     # `try: s.remove(x) except KeyError: raise ValidationError` asks the same question
         if member is None or (p.exit[0] == "raise" and not local_refusal(p)):
             continue
         rows.add((member, "refuse" if local_refusal(p) else ("remove" if removed else "nothing")))
     c = "membership-polarity:HexaryTrieFog.mark_all_complete"
-    if rows == {(True, "remove"), (False, "refuse")}:
+    if not rows:
+        ctx.unsure(c, g.loc(), "no path of mark_all_complete shows a membership test or a guarded remove() the table can read")
+    elif rows == {(True, "remove"), (False, "refuse")}:
         ctx.ok(c, g.loc(), "a listed prefix that is unexplored is removed, any other is refused with ValidationError")
     else:
         ctx.bad(c, g.loc(), "mark_all_complete behaves as %s; expected {member: remove, not a member: ValidationError}" % sorted(rows, key=str))
